@@ -8,6 +8,7 @@ exhaustive correspondence on the same domains).  Spec: Rs1090/Spec/Altitude.lean
 -/
 import Rs1090.Model.Altitude
 import Rs1090.Spec.Altitude
+import Rs1090.Gen.HiddenState
 namespace Rs1090.Props.C13
 open Rs1090 Rs1090.Model Rs1090.Spec
 
@@ -223,5 +224,17 @@ theorem ft_per_m_literal :
     Gen.Altitude.FT_PER_M_NUM = 1720105 ∧ Gen.Altitude.FT_PER_M_EXP = 19 ∧
       3280839 * 2 ^ 19 < 1720105 * 1000000 ∧ 1720105 * 1000000 < 3280841 * 2 ^ 19 := by
   decide
+
+/-! ### hidden state (the code side of "is a function of its input") -/
+
+/-- **No hidden state besides the reviewed one** in the files this property is anchored in.  `decode_id13`, `gray2alt`, `AC13Field::read`, `decode_ac12` are enumerated as functions of the code; the only site in their files is the serialisation switch `CONFIG` (read by `Serialize for TimedMessage` only).
+    The translator lists on every run every construct through which a Rust function can carry state from one
+    call to the next without it showing in its signature (`static`, `thread_local!`, `lazy_static!`,
+    `OnceCell`/`OnceLock`/`Lazy`, `Cell`/`RefCell`/`UnsafeCell`, `Mutex`/`RwLock`, atomics, `unsafe`; whole
+    files, gen/extractors/hidden_state.py); a memo, cache or counter added there breaks this obligation by
+    name, whatever inputs the harness happens to generate. -/
+theorem hidden_state_reviewed :
+    Gen.HiddenState.sitesIn ["decode/mod.rs", "decode/bds/bds05.rs"] =
+      [("decode/mod.rs", "static CONFIG: OnceCell<SerializeConfig> = OnceCell::new();")] := by decide
 
 end Rs1090.Props.C13
